@@ -74,7 +74,17 @@ def run_temperature_config(cfg):
             ann.update(n_iter_frac=cfg["frac"])
     problems = []
     try:
-        algo = make_algo(n_iter, ann)
+        if cfg.get("reused_after") is not None:
+            # ONE settings object: an algorithm is first built for another number of iterations, then the number of
+            # iterations is changed in the settings and the algorithm under test is built from the same object
+            with warnings.catch_warnings():
+                warnings.simplefilter("ignore")
+                settings = AlgorithmSettings("mcmc_saem", n_iter=cfg["reused_after"], progress_bar=False, seed=0, annealing=ann)
+                algorithm_factory(settings)._initialize_annealing()
+                settings.parameters["n_iter"] = n_iter
+                algo = algorithm_factory(settings)
+        else:
+            algo = make_algo(n_iter, ann)
         algo._initialize_annealing()
     except (LeaspyAlgoInputError, LeaspyInputError) as e:
         # documented requirements: initial temperature > 1, at least one plateau, a count >= 0 or a ratio in [0, 1]
@@ -101,7 +111,8 @@ def run_temperature_config(cfg):
     A = cfg["count"] if cfg.get("count") is not None else int(cfg["frac"] * n_iter)
     if A_impl != A:
         problems.append(("annealing setup|number of annealing iterations differs from the configured one|" +
-                         ("explicit count" + (", default ratio kept" if cfg.get("keep_default_frac") else "") if cfg.get("count") is not None else "ratio"),
+                         ("explicit count" + (", default ratio kept" if cfg.get("keep_default_frac") else "") if cfg.get("count") is not None else "ratio")
+                         + (", settings object used before for another number of iterations" if cfg.get("reused_after") is not None else ""),
                          f"{cfg}: algorithm holds {A_impl}, configured {A}"))
     feature = "n_plateau=1" if P == 1 else ("annealing iterations < n_plateau-1" if A < P - 1 else ("0 annealing iterations" if A == 0 else "regular"))
     if A == 0:
@@ -160,6 +171,10 @@ def temperature_configs(tier):
                 for count in sorted({0, 1, max(P - 2, 0), max(P - 1, 0), n_iter}):
                     yield {"on": True, "n_iter": n_iter, "T0": T0, "P": P, "frac": None, "count": count}
                 if T0 == T0S[0] and P >= 1:
+                    # the settings object served before, for an algorithm with another number of iterations
+                    for frac in (0.5, 1.0):
+                        for prev in sorted({1, n_iter // 2, 2 * n_iter + 3} - {0, n_iter}):
+                            yield {"on": True, "n_iter": n_iter, "T0": T0, "P": P, "frac": frac, "count": None, "reused_after": prev}
                     # an explicit count while the default ratio stays in the settings (the count has priority)
                     for count in sorted({0, 2, max(n_iter // 3, 1)}):
                         yield {"on": True, "n_iter": n_iter, "T0": T0, "P": P, "frac": None, "count": count, "keep_default_frac": True}
@@ -296,6 +311,7 @@ def shards(tier, seed):
             out.append({"machine": "scale", "setting": setting, "w": w, "tier": tier})
     out.append({"machine": "fit", "tier": tier})
     out.append({"machine": "personalize", "tier": tier})
+    out.append({"machine": "scale_binding", "tier": tier})
     return out
 
 
@@ -325,6 +341,8 @@ def run_shard(shard):
                 explore_scale(shard["setting"], shard["w"], band, factor, acc, max_steps=12)
     elif shard["machine"] == "personalize":
         run_personalize_binding(acc, shard["tier"])
+    elif shard["machine"] == "scale_binding":
+        run_scale_binding(acc, shard["tier"])
     else:
         run_fit_binding(acc, shard["tier"])
     return acc.to_dict()
@@ -393,6 +411,104 @@ def run_fit_binding(acc, tier):
                 acc.violation(f"fit|accepted configuration raises {type(e).__name__}|{feature}", f"{type(e).__name__}: {e}", case)
             finally:
                 type(algo)._update_temperature = orig
+
+
+def run_scale_binding(acc, tier):
+    """Real runs (sampling personalisations and fits) with short acceptance windows; every sampler's `_update_acceptation_rate`
+    / `_update_std` calls are recorded.  ONE algorithm object is run twice (second cohort of the same size).  In each run, for each
+    sampler: the scale starts from the value a new algorithm object starts from, moves only inside `_update_std`, only at calls
+    whose rank in the run is a multiple of the window, by the configured factor, per block, according to the mean of the last
+    `window` acceptance vectors recorded in that run."""
+    from leaspy.samplers.base import AbstractSampler
+    from leaspy.samplers import gibbs as G
+    from ..models import MODEL_SPECS, build_model, cohort_dataset
+
+    spec = MODEL_SPECS["logistic_d2_s1_diag"]
+    cohorts = [cohort_dataset(["a", "b", "d"], spec), cohort_dataset(["c", "a", "b"], spec)]
+    owner = next(c for c in G.IndividualGibbsSampler.__mro__ if "_update_std" in vars(c))
+    grid = [(name, n, w, f) for name in ("mode_posterior", "mean_posterior", "mcmc_saem") for n, w in ((7, 3), (5, 2), (4, 1), (8, 4))
+            for f in (0.5,)]
+    if tier == "thorough":
+        grid += [(name, n, w, 0.1) for name in ("mode_posterior", "mcmc_saem") for n, w in ((11, 3), (9, 4), (10, 5))]
+    lo, hi = 0.2, 0.4
+    for name, n_iter, w, factor in grid:
+        case = {"machine": "scale_binding", "algorithm": name, "n_iter": n_iter, "w": w, "factor": factor}
+        kws = {"acceptation_history_length": w, "adaptive_std_factor": factor, "mean_acceptation_rate_target_bounds": (lo, hi)}
+        log = []  # (sampler id, name, kind, payload)
+        o_std, o_acc = owner._update_std, AbstractSampler._update_acceptation_rate
+
+        def spy_std(self, _o=o_std):
+            before = self.std.clone()
+            _o(self)
+            log.append((id(self), self.name, "std", (before, self.std.clone())))
+
+        def spy_acc(self, accepted, _o=o_acc):
+            log.append((id(self), self.name, "acc", accepted.detach().clone().float()))
+            _o(self, accepted)
+
+        with warnings.catch_warnings():
+            warnings.simplefilter("ignore")
+            extra = {"sampler_pop_params": dict(kws)} if name == "mcmc_saem" else {}
+            algo = algorithm_factory(AlgorithmSettings(name, n_iter=n_iter, progress_bar=False, seed=0, sampler_ind_params=dict(kws), **extra))
+            runs = []
+            try:
+                owner._update_std, AbstractSampler._update_acceptation_rate = spy_std, spy_acc
+                for r in range(2):
+                    del log[:]
+                    algo.run(build_model(spec), cohorts[r])
+                    runs.append(list(log))
+                    acc.transition(n_iter)
+            except Exception as e:
+                acc.outcome("scale_binding:raised")
+                acc.violation(f"{name}|run with a short acceptance window raises {type(e).__name__}|run {len(runs) + 1} of one algorithm object", str(e), case)
+                continue
+            finally:
+                owner._update_std, AbstractSampler._update_acceptation_rate = o_std, o_acc
+        acc.evaluation()
+        acc.state()
+        starts = []
+        for r, entries in enumerate(runs):
+            per = {}
+            for sid, nm, kind, payload in entries:
+                per.setdefault(nm, {"ids": set(), "std": [], "acc": []})
+                per[nm]["ids"].add(sid)
+                per[nm][kind].append(payload)
+            starts.append({nm: d["std"][0][0] for nm, d in per.items() if d["std"]})
+            for nm, d in sorted(per.items()):
+                which = f"{name}, run {r + 1} of one algorithm object"
+                if len(d["std"]) != len(d["acc"]) or not d["std"]:
+                    acc.outcome("scale_binding:calls not paired")
+                    continue
+                acc.nontriv(repr((name, n_iter, w, factor, r, nm, [a.reshape(-1).tolist() for a in d["acc"]])))
+                prev_after = None
+                for n, ((before, after), a) in enumerate(zip(d["std"], d["acc"]), 1):
+                    if prev_after is not None and not torch.equal(before, prev_after):
+                        acc.violation(f"sampler[{which}]|scale changes outside the adaptation step|", f"{nm} before call {n}: {prev_after.reshape(-1).tolist()} -> {before.reshape(-1).tolist()}", case)
+                    prev_after = after
+                    if not bool((torch.isfinite(after) & (after > 0)).all()):
+                        acc.violation(f"sampler[{which}]|proposal scale not positive and finite|", f"{nm} call {n}: {after}", case)
+                    if n % w != 0:
+                        acc.outcome("scale_binding:kept")
+                        if not torch.equal(before, after):
+                            acc.violation(f"sampler[{which}]|scale changes outside a multiple of the history length|",
+                                          f"{nm}: call {n} of the run, window {w}: {before.reshape(-1).tolist()} -> {after.reshape(-1).tolist()}", case)
+                        continue
+                    window = torch.stack([x.reshape(before.shape) for x in d["acc"][n - w:n]])
+                    mean64 = window.double().mean(dim=0)
+                    mean32 = window.mean(dim=0)
+                    exp = torch.where(mean64 < lo, before * (1 - factor), torch.where(mean64 > hi, before * (1 + factor), before))
+                    tie = ((mean32 < lo) != (mean64 < lo)) | ((mean32 > hi) != (mean64 > hi))
+                    acc.outcome("scale_binding:adapted" if not torch.equal(before, after) else "scale_binding:inside the band")
+                    bad = (after != exp) & ~tie
+                    if bool(bad.any()):
+                        acc.violation(f"sampler[{which}]|scale not changed by exactly the configured factor for the blocks outside the band|",
+                                      f"{nm}: call {n}, window {w}, mean acceptance {mean64.reshape(-1).tolist()}: {before.reshape(-1).tolist()} -> "
+                                      f"{after.reshape(-1).tolist()}, expected {exp.reshape(-1).tolist()}", case)
+        for nm in sorted(set(starts[0]) & set(starts[1])):
+            if starts[0][nm].shape == starts[1][nm].shape and not torch.equal(starts[0][nm], starts[1][nm]):
+                acc.violation(f"sampler[{name}, run 2 of one algorithm object]|scale does not start from the initial value|",
+                              f"{nm}: first run starts at {starts[0][nm].reshape(-1).tolist()}, second at {starts[1][nm].reshape(-1).tolist()}", case)
+        acc.outcome("scale_binding:completed")
 
 
 def run_personalize_binding(acc, tier):
@@ -464,6 +580,11 @@ def replay(case):
         return [{"signature": s, "message": f"{m} trace={trace}"} for s, m in problems]
     if case.get("machine") == "scale":
         return replay_scale(case)
+    if case.get("machine") == "scale_binding":
+        acc = Acc()
+        run_scale_binding(acc, "thorough")
+        return [{"signature": v["signature"], "message": v["message"]} for v in acc.violations.values()
+                if all(v["case"].get(k) == case.get(k) for k in ("algorithm", "n_iter", "w", "factor"))]
     acc = Acc()
     run_fit_binding(acc, "thorough")
     return [{"signature": v["signature"], "message": v["message"]} for v in acc.violations.values()
